@@ -1,6 +1,7 @@
 """C13 — computations cover exactly the requested time grid and label states correctly."""
 from fractions import Fraction
 import math
+import warnings
 import numpy as np
 import oqupy
 from oqupy.dynamics import Dynamics
@@ -169,6 +170,36 @@ def run(chk):
             expr = (f"end_step {float_lit(start)} {float_lit(end)} {float_lit(dt)} :: "
                     f"flat_map (fun t => let '(s,m,e) := fbits t in [s;m;e]) (times_all {float_lit(start)} {float_lit(dt)} {n})")
         add(expr, exp, m_info, (driver, kind, sts, dts, min(m, 12)))
+
+    # ---- (a2) the convenience drivers with GUESSED parameters (parameters=None, tolerance given): the grid is the one
+    # of the guessed time step, starting at the start time -----------------------------------------------------------
+    corr_g = oqupy.PowerLawSD(alpha=0.1, zeta=1, cutoff=3.0, cutoff_type="exponential", temperature=0.1)
+    bath_g = oqupy.Bath(0.5 * oqupy.operators.sigma("z"), corr_g)
+    sys_g = oqupy.System(0.5 * oqupy.operators.sigma("x"))
+    for i in range(6 if thorough else 3):
+        start = float(rng.choice(START_LITS))
+        span = rng.choice([0.5, 1.0, 1.3])
+        end = start + span
+        tol = rng.choice([0.05, 0.1])
+        info = {"driver": "guessed-parameters", "start": start, "end": repr(end), "tolerance": tol}
+        try:
+            with warnings.catch_warnings():
+                warnings.simplefilter("ignore")
+                gp = quiet(oqupy.guess_tempo_parameters, bath_g, start, end, sys_g, tol)
+                d = quiet(oqupy.tempo_compute, sys_g, bath_g, _rho, start, end, tolerance=tol, progress_type="silent")
+                gp2 = quiet(oqupy.guess_tempo_parameters, bath_g, start, end, None, tol)
+                pt = quiet(oqupy.pt_tempo_compute, bath_g, start, end, tolerance=tol, progress_type="silent")
+        except Exception as ex:
+            chk.fail("driver-raises", f"tempo_compute / pt_tempo_compute with guessed parameters raise {ex!r}", info)
+            continue
+        chk.search_cases += 1
+        chk.count("guessed_parameters")
+        times = list(d.times)
+        n = len(times) - 1
+        if n not in expected_steps(start, end, gp.dt) or times != [start + float(k) * gp.dt for k in range(n + 1)]:
+            chk.fail("grid-labels", f"tempo_compute(parameters=None): times {times[:3]}..{times[-1]} are not start + k*dt for the guessed dt={gp.dt}", info)
+        if pt.dt != gp2.dt or len(pt) not in expected_steps(start, end, gp2.dt):
+            chk.fail("step-count", f"pt_tempo_compute(parameters=None): {len(pt)} steps of {pt.dt}, guessed dt={gp2.dt}", info)
 
     # ---- (b) compute_dynamics / with_field / gradient labels, record_all on and off -------
     n_b = 90 if thorough else 30
